@@ -1769,6 +1769,18 @@ func (g *FnGen) touchedLocals(li *loopInfo) []string {
 						touched[a] = true
 					}
 				}
+				// a closure called in the loop may assign the variables it captured
+				mc, _ := x.Common().Value.(*ssa.MakeClosure)
+				if mc == nil {
+					mc = localClosure(x.Common().Value)
+				}
+				if mc != nil {
+					for _, b := range mc.Bindings {
+						if a := rootAlloc(b); a != nil {
+							touched[a] = true
+						}
+					}
+				}
 				if !x.Common().IsInvoke() {
 					if a := rootAlloc(x.Common().Value); a != nil {
 						touched[a] = true
